@@ -36,9 +36,11 @@ Proof. exact set_prop_refuses_len. Qed.
 Print Assumptions set_prop_refuses_len.
 
 (* a wrong-length column at any position: nothing is stored, not even the columns before it *)
-Theorem update_props_refuses_len : forall s h oid o pre c post,
-  lookup s h = Some (oid, o) -> length (snd c) <> length (onames o) ->
-  step s (OpUpdateProps h (pre ++ c :: post)) = (s, Raises EValue).
+(* `effective_col`: the values given, or with append=True the stored column extended by them *)
+Theorem update_props_refuses_len : forall s h oid o pre c post append,
+  lookup s h = Some (oid, o) ->
+  length (effective_col (dprops (view (bufs s) o)) append c) <> length (onames o) ->
+  step s (OpUpdateProps h (pre ++ c :: post) append) = (s, Raises EValue).
 Proof. exact update_props_refuses_len. Qed.
 Print Assumptions update_props_refuses_len.
 
@@ -68,7 +70,7 @@ Print Assumptions refusal_atomic.
 
 (* ... and `aligned` holds after every history *)
 Theorem refusal_atomic_any_history : forall ops o s' e,
-  ops_dom init ops -> step (run init ops) o = (s', Raises e) -> s' = run init ops.
+  step (run init ops) o = (s', Raises e) -> s' = run init ops.
 Proof. exact refusal_atomic_any_history. Qed.
 Print Assumptions refusal_atomic_any_history.
 
@@ -76,8 +78,15 @@ Print Assumptions refusal_atomic_any_history.
    fingerprint has the wrong length: refused, and the hypotheses of the theorems above are met *)
 Definition ex_fp (bits : Z) (i : Z) : fpin := mkfpin (mkfp KCount bits (Some 5) [i] [(i, 2%Q)] (Some "a"%string)) [("p"%string, VInt i)].
 Definition ex_hist : list op := [OpNew KCount (Some 5); OpAdd 0 [ex_fp 16 1; ex_fp 16 3]].
-Example ex_hist_dom : ops_dom init ex_hist.
-Proof. unfold ex_hist. cbn [ops_dom op_dom]. repeat split. Qed.
+(* from_array with fewer names than rows is refused *)
+Example ex_names_refused :
+  step init (OpFromArray KBit None 8 false [[(1, 1%Q)]; [(2, 1%Q)]] [Some "a"%string] []) = (init, Raises EValue).
+Proof. vm_compute. reflexivity. Qed.
+(* update_props(append=True): a good fresh column followed by a faulty extension of a stored column: nothing is stored *)
+Example ex_append_refused :
+  let s := fst (step (run init ex_hist) (OpUpdateProps 0 [("q"%string, [VInt 1; VInt 2])] false)) in
+  step s (OpUpdateProps 0 [("r"%string, [VInt 7; VInt 8]); ("q"%string, [VInt 3])] true) = (s, Raises EValue).
+Proof. vm_compute. reflexivity. Qed.
 Example ex_refused :
   step (run init ex_hist) (OpAdd 0 [ex_fp 16 2; ex_fp 32 2]) = (run init ex_hist, Raises EBits)
   /\ option_map fp_num (handle_db (run init ex_hist) 0) = Some 2%nat.
